@@ -24,8 +24,8 @@ Proved (invariant `Inv`, `Lemmas/Shutdown.lean`, by induction over the schedule)
   closed, and a connection still waiting at the `end` test is dropped, never served;
 * `C36_full_safety_partial` — the property's safety half for every handler outside the two findings.
 
-The full property is **false** of the code, in two ways (both replayed on the real broker by the
-`shutdown` correspondence suite on every run; known findings F36a, F36b):
+The full property is **false** of the code, in three ways (F36a and F36b are replayed on the real broker
+by forced schedules of the `shutdown` correspondence suite on every run; F36c by a race loop):
 * `C36_late_registration_counterexample` (F36a) — `ClientsWg.Add(1)` … `Clients.Add` are executed inside
   the handler, not under any lock shared with `Close`: a handler that passes `Clients.Add` after the
   snapshot is never disconnected. `Close` blocks in `Wait` for as long as that client chooses to stay,
@@ -34,6 +34,10 @@ The full property is **false** of the code, in two ways (both replayed on the re
 * `C36_uncounted_handler_counterexample` (F36b) — `TCP.Serve` spawns the goroutine, the goroutine adds
   itself to the wait group: `Wait` succeeds while a spawned handler has not yet executed `Add(1)`;
   `Close` returns (hooks stopped) and the handler then runs its whole program against the closed server.
+* `C36_wait_reuse_panic_counterexample` (F36c) — the same uncounted handler executing `Add(1)` between
+  the `Done` that releases the sleeping `Wait` and `Wait` waking up: the Go runtime panics inside
+  `Server.Close` ("WaitGroup is reused before previous Wait has returned"). Reproduced on the real
+  broker by the `sd.race` stress op (a race, not a forced schedule).
 -/
 namespace Mochi.Shutdown
 
@@ -174,7 +178,7 @@ example : C36_full_safety [1, 0] [(0, 5), (1, 4), (1, 5)] okSched := by
   unfold C36_full_safety ClosedOne; decide
 
 /-- `Wait` really blocks: one step before the last `Done` the closer is still waiting -/
-example : (run (boot [1, 0] [(0, 5), (1, 4), (1, 5)]) (okSched.take 39 ++ [.closer, .closer])).cpc = .wgWait := by decide
+example : (run (boot [1, 0] [(0, 5), (1, 4), (1, 5)]) (okSched.take 39 ++ [.closer, .closer])).cpc = .wgBlocked := by decide
 
 /-! ## F36a — a client registered after the snapshot is never disconnected -/
 
@@ -189,7 +193,8 @@ def lateSched : List Ev :=
 def lateState : Sys := run (boot [0] [(0, 5)]) lateSched
 
 def lateLit : Sys :=
-    { cpc := .wgWait, todoL := [], done := true, ended := [0], netClosed := [0], wg := 1, hooksStopped := false,
+    { cpc := .wgBlocked, todoL := [], done := true, ended := [0], netClosed := [0], wg := 1, waiting := true,
+      hooksStopped := false,
       hs := [{ lis := 0, ver := 5, pc := .readLoop, registered := true, stopped := false, peerClosed := false,
                out := [.connack], regBeforeSnap := false, addBeforeWait := true }],
       snapshotted := [0], waitPassed := false }
@@ -226,7 +231,7 @@ theorem lateState_stuck (ext : List Ev) (hext : ∀ e ∈ ext, e.isPeer = false)
     it returns only if the client itself leaves. -/
 theorem C36_late_registration_counterexample :
     ¬ C36_full_progress [0] [(0, 5)] lateSched ∧
-    (lateState.done = true ∧ lateState.ended = [0] ∧ lateState.cpc = .wgWait ∧
+    (lateState.done = true ∧ lateState.ended = [0] ∧ lateState.cpc = .wgBlocked ∧
      lateState.hs.map (fun h => (h.pc, h.registered, h.regBeforeSnap, h.stopped, h.out)) =
        [(.readLoop, true, false, false, [.connack])]) ∧
     (∀ ext : List Ev, (∀ e ∈ ext, e.isPeer = false) → run lateState ext = lateState) ∧
@@ -264,6 +269,61 @@ theorem C36_uncounted_handler_counterexample :
   unfold C36_full_safety ClosedOne
   decide
 
+/-! ## F36c — the same window makes `Close` panic -/
+
+theorem stepHandler_cpc (s : Sys) (i : Nat) : (stepHandler s i).cpc = s.cpc := by
+  unfold stepHandler
+  cases s.hs[i]? with
+  | none => rfl
+  | some h =>
+    simp only
+    cases h.pc <;> simp only <;> (try split) <;> rfl
+
+/-- after the panic nothing brings `Close` to return -/
+theorem panicked_absorbing (s : Sys) (h : s.cpc = .panicked) (ext : List Ev) : (run s ext).cpc = .panicked := by
+  induction ext generalizing s with
+  | nil => exact h
+  | cons e rest ih =>
+    rw [run_cons]
+    apply ih
+    cases e with
+    | closer => simp [step, stepCloser, h]
+    | handler i => simp [step, stepHandler_cpc, h]
+    | peerClose i =>
+      simp only [step, peerClose]
+      cases s.hs[i]? with
+      | none => exact h
+      | some u => simp only; split <;> exact h
+    | closerNext c => simp [step, closerNext, h]
+
+/-- an established client and a second connection whose goroutine is spawned but has not yet counted
+    itself; `Close` disconnects the first and sleeps in `Wait`; the first handler's `Done` brings the
+    counter to 0 and releases the waiter; before the waiter runs, the second handler executes `Add(1)` -/
+def reuseSched : List Ev :=
+  [.handler 0, .handler 0, .handler 0, .handler 0, .handler 0, .handler 0, .handler 0, .handler 0,   -- c0 established, reading
+   .handler 1,                                                                                       -- c1: end test passed, spawned
+   .closer, .closer, .closer, .closer, .closer, .closer, .closer, .closer, .closer,                   -- … DISCONNECT c0, Stop … Wait: asleep
+   .handler 0, .handler 0, .handler 0,                                                                -- c0: teardown, Done: counter 0, waiter released
+   .handler 1,                                                                                        -- c1: Add(1)
+   .closer]                                                                                           -- Wait wakes: counter 1
+
+/-- **F36c.** `Server.Close` panics ("sync: WaitGroup is reused before previous Wait has returned"): the
+    uncounted handler of F36b adds itself between the `Done` that releases `Wait` and `Wait` waking up.
+    The process dies inside `Close`; hooks are never stopped. (Reproduced on the real broker by a race
+    loop, not by a forced schedule: the window is inside `sync.WaitGroup`.) -/
+theorem C36_wait_reuse_panic_counterexample :
+    (let s := run (boot [0] [(0, 5), (0, 5)]) reuseSched
+     s.cpc = .panicked ∧ s.hooksStopped = false ∧ s.wg = 1 ∧
+     s.hs.map (fun h => (h.pc, h.addBeforeWait, h.out)) =
+       [(.finished, true, [.connack, .disconnect 0x8B]), (.readConnect, true, [])]) ∧
+    ¬ C36_full_progress [0] [(0, 5), (0, 5)] reuseSched := by
+  refine ⟨by decide, ?_⟩
+  intro hp
+  obtain ⟨ext, _, hret⟩ := hp (by decide)
+  have := panicked_absorbing (run (boot [0] [(0, 5), (0, 5)]) reuseSched) (by decide) ext
+  rw [this] at hret
+  exact absurd hret (by decide)
+
 /-- both findings need the window: the same connection established before `Close` is called is
     disconnected with 0x8B, closed and waited for -/
 example :
@@ -282,3 +342,4 @@ end Mochi.Shutdown
 #print axioms Mochi.Shutdown.C36_full_safety_partial
 #print axioms Mochi.Shutdown.C36_late_registration_counterexample
 #print axioms Mochi.Shutdown.C36_uncounted_handler_counterexample
+#print axioms Mochi.Shutdown.C36_wait_reuse_panic_counterexample
